@@ -6,6 +6,7 @@
 package pfcpiface
 
 import (
+	"time"
 	"encoding/json"
 	"fmt"
 	"net"
@@ -419,6 +420,10 @@ type c01Scenario struct {
 
 func TestVerifC01(t *testing.T) {
 	vQuietLoggers()
+	// C01 sends flow descriptions the BESS plug-in cannot expand (its goroutine then never reports back and the request is
+	// answered after the join time-out): keep the repository's own 1 s there. Nothing in C01 reads the tables while
+	// entries may still be arriving - a state whose key changed is rebuilt.
+	Timeout = time.Second
 	res := vNewResult()
 	defer res.write(t)
 	res.Rule = "states = BFS (depth 3 quick / 4 thorough) over association, PFD, establishment (basic / CHOOSE+UE-IP), deletion, release on 2 associations, with UE-IP allocation on and off; " +
